@@ -31,7 +31,18 @@ func (e *Engine) verifyFunction(name string, spec *FuncSpec) (fc *FnCtx, err err
 	st := &State{pc: tTrue, cells: map[cellKey]Val{}, heaps: map[string]Term{}}
 	// axioms
 	for _, ax := range e.axioms {
-		env := newSpecEnv(spec.Pkg)
+		axPkg := ax.Pkg
+		if axPkg == "" {
+			axPkg = spec.Pkg
+		}
+		if axPkg != spec.Pkg && axPkg != "header" {
+			// axioms of another package's library model (e.g. the store's datastore keys) do not concern
+			// this function: none of its contracts can mention that vocabulary
+			if _, loaded := fc.eng.pkgs[axPkg]; loaded {
+				continue
+			}
+		}
+		env := newSpecEnv(axPkg)
 		ev := &evaluator{fc: fc, st: st, old: st, env: env, clause: &Clause{File: "axiom " + ax.Name}}
 		fc.define(ev.evalBool(ax.Expr))
 		fc.assumptions["axiom "+ax.Name+": "+ax.Src] = true
